@@ -33,13 +33,17 @@
        refuses a repeated hash or timestamp in a round.
      - one day per round: kernel/round.go:213, kernel/cosi.go:419, kernel/queue.go:299.
      - proposer occurs exactly once among the signers, signers non-empty: the signer list is
-       read from the CoSi mask (distinct positions) and the proposer always signs its own
-       snapshot.  Genesis snapshots have no signers: credit_fresh then credits nothing, which
-       is outside this theorem (wf_sub excludes them).
+       cids[k] for the set bits k of the CoSi mask (kernel/graph.go cacheVerifyCosi), so it is
+       duplicate free; an honest proposer always contributes its own commitment
+       (kernel/cosi.go:477), so it is in the mask.  verifyFinalization itself does not check the
+       proposer's bit: for a finalized snapshot without it WriteRoundWork panics
+       (C26_panic_leader_count) - that is an availability question outside this property.
+       Genesis snapshots have no signers: credit_fresh then credits nothing, which is outside
+       this theorem (wf_sub excludes them).
      - credit = true constant per round: the flag is (day of round = day of next round) or the
        mainnet legacy term, both functions of the round.  With credit = false the call records
        the snapshots as seen WITHOUT crediting; a later call with credit = true does not
-       credit them either (Example credit_flip_loses below).
+       credit them either (C26_credit_flip_refuted below).
      - round < 2^64 - 1: the Go code computes off+1 in uint64. *)
 From Coq Require Import List ZArith NArith Bool.
 Require Import Mixin.Base.Res Mixin.Gen.Consts Mixin.Model.Work Mixin.Proofs.Work.
@@ -172,18 +176,18 @@ Definition h_ex := [s1; s2; s3; s4; s5; s6].
 
 Ltac in_cases :=
   repeat match goal with
-  | H : In _ (_ :: _) |- _ => destruct H as [H|H]; [try subst|]
-  | H : In _ [] |- _ => destruct H
-  end.
+  | H : _ \/ _ |- _ => destruct H as [H|H]
+  | H : False |- _ => destruct H
+  end; subst.
 Ltac pick := repeat (try (left; reflexivity); right).
 Ltac wf :=
   split; [vm_compute; split; [discriminate | reflexivity] |
   split; [reflexivity |
   split; [vm_compute; repeat constructor; cbn; intuition discriminate |
-  split; [intros w Hw; cbn in Hw; in_cases; vm_compute; repeat split; discriminate |
-          intros w w' Hw Hw'; cbn in Hw, Hw'; in_cases; reflexivity]]]].
+  split; [intros w Hw; vm_compute in Hw; in_cases; vm_compute; repeat split; discriminate |
+          intros w w' Hw Hw'; vm_compute in Hw, Hw'; in_cases; reflexivity]]]].
 Ltac hc :=
-  intros p w w' Hp Hw Hw' Hh; cbn in Hp; in_cases; cbn in Hw, Hw'; in_cases;
+  intros p w w' Hp Hw Hw' Hh; vm_compute in Hp; in_cases; vm_compute in Hw, Hw'; in_cases;
   try (vm_compute in Hh; discriminate); repeat split; reflexivity.
 
 Example h_ex_valid : valid h_ex.
@@ -204,18 +208,18 @@ Proof.
   - right. reflexivity.
   - hc.
   - split; [vm_compute; reflexivity|].
-    intros w Hw. cbn in Hw. in_cases; vm_compute; pick.
+    intros w Hw. vm_compute in Hw. in_cases; vm_compute; pick.
   - wf.
   - left. split; [reflexivity|]. intros x Hx. vm_compute in Hx. in_cases. vm_compute. pick.
   - hc.
 Qed.
 
-(* three distinct snapshots were submitted in nine occurrences *)
+(* three distinct snapshots were submitted in eight occurrences *)
 Example h_ex_counts :
   let st := run empty_state h_ex in
   (length (all_pairs h_ex), lead st 1%N D, lead st 1%N (D + 1), sign st 2%N D, sign st 3%N D,
    sign st 1%N D, read_work_offset st 1%N)
-  = (9%nat, 2, 1, 2, 1, 0, 2).
+  = (8%nat, 2, 1, 2, 1, 0, 2).
 Proof. vm_compute. reflexivity. Qed.
 
 Example h_ex_spec :
